@@ -55,7 +55,7 @@ namespace rkcommon {
 
     void FixedBufferWriter::write(const void *mem, size_t size)
     {
-      if (cursor + size >= buffer->size()) {
+      if (cursor + size > buffer->size()) {
         throw std::runtime_error(
             "FixedBufferWriter::write size exceeds buffer");
       }
@@ -66,7 +66,7 @@ namespace rkcommon {
 
     void *FixedBufferWriter::reserve(size_t size)
     {
-      if (cursor + size >= buffer->size()) {
+      if (cursor + size > buffer->size()) {
         throw std::runtime_error(
             "FixedBufferWriter::reserve size exceeds buffer");
       }
